@@ -251,6 +251,7 @@ def run(ck, F):
     # ---- R5: fixed prefixes next to allocated ones
     rule_fixed_prefixes(ck, F, MAKE)
     rule_schema_namespace(ck, F)
+    rule_component_read_out_of_turn(ck, F)
     # ---- R4
     MERGE = A.merge_fn(F)
     b = F.lib.body(MERGE) if MERGE else None
@@ -432,6 +433,163 @@ def rule_schema_namespace(ck, F, rule="R6"):
                                  f"{short} hands {og.nf_str(nf)[:60]} to the schema reader without making that element's `targetNamespace` the current one: "
                                  f"its components are stamped with the namespace of whatever was read before (the WSDL's own, the previous schema's)", fn=short)
         ck.floor(rule, "schema reader calls judged", n, 1)
+
+
+def _switcher(F):
+    """the function that makes a namespace the current target namespace: fn(&mut RustDocument, &str) assigning the field"""
+    out = []
+    for f in A._fn_items(F):
+        ins = [A._norm_ty(x) for x in f["inputs"]]
+        if ins == ["&mutmodel::doc::RustDocument", "&str"] and A._norm_ty(f["output"]) == "()":
+            b = F.lib.body(f["path"])
+            if b is None or not b.get("mir"):
+                continue
+            B = I.inlined_body(F.lib, f["path"])
+            if any(st["k"] == "assign" and st["p"]["l"] == 1 and [p_.get("f") for p_ in (st["p"].get("proj") or []) if isinstance(p_, dict) and "f" in p_] == ["current_target_namespace"]
+                   for i in B.reach for st in B.blocks[i]["stmts"]):
+                out.append(f["path"])
+    return out
+
+
+def component_converters(F):
+    """the functions that turn one schema component into a node of the model: fn(Node, &mut RustDocument) -> Result<RustNode, _>"""
+    out = []
+    for f in A._fn_items(F):
+        ins = [A._norm_ty(x) for x in f["inputs"]]
+        if len(ins) == 2 and ins[0].startswith("roxmltree::Node<") and ins[1] == "&mutmodel::doc::RustDocument" \
+                and A._norm_ty(f["output"]).startswith("std::result::Result<model::node::RustNode,"):
+            out.append(f["path"])
+    return sorted(out)
+
+
+def _is_target_namespace_read(B, operand, F=None, _depth=0):
+    """does the operand come from `<node>.attribute("targetNamespace")` (directly, or as what a closure handed to an Option
+    combinator answers: `node.parent().and_then(|schema| schema.attribute("targetNamespace"))`)?"""
+    for o in M.trace(B, operand, M.IDENTITY_CALLS + ("Option::<T>::unwrap_or_default", "Option::<T>::unwrap_or")):
+        if o.kind != "call":
+            continue
+        decl = M.Body.callee_decl(o.term) or ""
+        args = o.term.get("args") or []
+        if decl.endswith("::attribute") and len(args) == 2:
+            for c in M.trace(B, args[1], M.IDENTITY_CALLS):
+                if c.kind == "const" and "targetNamespace" in str(c.const.get("v", c.const)):
+                    return True
+        if F is not None and _depth < 3 and "option::Option" in decl and decl.rsplit("::", 1)[-1] in ("and_then", "map") and len(args) == 2:
+            for c in M.trace(B, args[1], ()):
+                if c.kind == "aggregate" and c.rv.get("closure"):
+                    cb = F.lib.body(c.rv["closure"])
+                    if cb is not None and cb.get("mir"):
+                        CB = M.Body(cb)
+                        if _is_target_namespace_read(CB, {"k": "copy", "p": {"l": 0, "proj": []}}, F, _depth + 1):
+                            return True
+    return False
+
+
+def rule_component_read_out_of_turn(ck, F, rule="R6"):
+    """A component that is converted out of its turn — found by a search of the XML tree because something refers to it before it was
+    read — lies in a schema of its own, which need not be the schema of what refers to it (two schema elements of one WSDL). What is
+    made of it (the namespace of its members, the module it is attributed to) has to be the same as when it is read in its turn:
+    (a) its schema's `targetNamespace` is made current before the conversion on every path on which the schema has one, and (b) on
+    every path from the conversion back to the caller the namespace that was current before is current again."""
+    sw = _switcher(F)
+    convs = set(component_converters(F))
+    from rules import c02 as C02
+    in_turn = set(C02.schema_readers(F))
+    if len(sw) != 1 or not convs:
+        ck.undecided(rule, "out-of-turn:roles", "-", f"namespace switcher ({sw}) or component converter ({sorted(convs)}) could not be attributed")
+        return
+    sw = sw[0]
+    n = 0
+    lookups = {p_ for p_, _i, _j in A.component_lookups(F)}
+    stop = lambda p_: p_ in convs or p_ == sw or p_ in in_turn      # noqa: E731
+    # the units judged: the lookups by name (with their helpers and closures taken in, other lookups left as calls), and any other
+    # function outside the readers that converts a component and is not part of a lookup
+    graph = scans.call_graph(F.lib)
+    part_of_lookup = set()
+    todo = list(lookups)
+    while todo:
+        x = todo.pop()
+        for y in graph.get(x, ()):
+            if y not in part_of_lookup and y not in lookups and y not in convs and y not in in_turn:
+                part_of_lookup.add(y)
+                todo.append(y)
+    units = []
+    for f in A._fn_items(F):
+        path = f["path"]
+        if path in in_turn or path in convs or "tests::" in path:
+            continue
+        b = F.lib.body(path)
+        if b is None or not b.get("mir"):
+            continue
+        if path in lookups:
+            # (every cycle of the component recursion passes through the converter: with its calls left as calls the helpers between the
+            # lookup and the converter can be taken in)
+            B = I.inlined_body(F.lib, path, stop=lambda p_, me=path: stop(p_) or (p_ in lookups and p_ != me), head=sorted(convs)[0] if len(convs) == 1 else None)
+        elif path in part_of_lookup:
+            continue
+        else:
+            B = M.Body(b)
+        if B is None:
+            continue
+        if any(M.Body.callee(t) in convs for _bb, t in B.calls()):
+            units.append((f, b, B))
+    for f, b, B in units:
+        cc = [(bb, t) for bb, t in B.calls() if M.Body.callee(t) in convs]
+        short = f["path"].rsplit("::", 1)[-1]
+        docs = [i + 1 for i, x in enumerate(f["inputs"]) if A._norm_ty(x) == "&mutmodel::doc::RustDocument"]
+        # (a) switch calls whose argument is the targetNamespace attribute of a node; the arm without a targetNamespace needs none
+        switches = [bb for bb, t in B.calls() if M.Body.callee(t) == sw and len(t.get("args") or []) == 2 and _is_target_namespace_read(B, t["args"][1], F)]
+        none_arms = set()
+        for i in sorted(B.reach):
+            t = B.term(i)
+            if t.get("k") != "switch":
+                continue
+            for o in M.trace(B, t["discr"], M.IDENTITY_CALLS):
+                if o.kind == "discr" and _is_target_namespace_read(B, {"k": "copy", "p": o.place}, F):
+                    # Option: discriminant 0 = None
+                    for val, tgt in t.get("targets") or []:
+                        if val == 0:
+                            none_arms.add(tgt)
+                    if all(v != 0 for v, _t in t.get("targets") or []) and t.get("otherwise") is not None:
+                        none_arms.add(t["otherwise"])
+        # (b) stores to the current namespace of a value read from it before any switch
+        def restores(i, st):
+            if st["k"] != "assign" or [p_.get("f") for p_ in (st["p"].get("proj") or []) if isinstance(p_, dict) and "f" in p_] != ["current_target_namespace"]:
+                return False
+            if st["rv"]["k"] != "use":
+                return False
+            for o in M.trace(B, st["rv"]["op"], M.IDENTITY_CALLS):
+                if "current_target_namespace" in o.fields() and o.kind == "arg":
+                    # where was it read: the identity call (clone) that took the copy must come before every switch
+                    took = [s_[2] for s_ in o.steps if s_[0] == "call"]
+                    if took and all(B.dominates(took[0], s) and took[0] != s for s in switches):
+                        return True
+            return False
+        restoring = [i for i in sorted(B.reach) for st in B.blocks[i]["stmts"] if restores(i, st)]
+        for bb, t in cc:
+            n += 1
+            sp = t.get("sp", b["span"])
+            unswitched = bb in B.reachable_from(0, avoid=set(switches) | none_arms) or not switches
+            if unswitched:
+                ck.violation(rule, f"out-of-turn:own-namespace:{short}", sp,
+                             f"{short} converts a component it found by searching the XML tree under whatever target namespace is current — the one of the "
+                             f"schema that refers to it — and not under the `targetNamespace` of the schema the component lies in: the members of a base "
+                             f"type or referenced element of another schema element get the referring schema's namespace, and only when the reference "
+                             f"comes before the definition", fn=short)
+            else:
+                ck.ok(rule, f"out-of-turn:own-namespace:{short}", sp, f"{short}: the found component's schema is made current before the component is converted", fn=short)
+            succ = B.term(bb).get("target")
+            rets = [r for r in B.return_blocks()]
+            leaking = succ is None or any(r in B.reachable_from(succ, avoid=set(restoring)) for r in rets) or not restoring
+            if not switches:
+                continue
+            if leaking:
+                ck.violation(rule, f"out-of-turn:restored:{short}", sp,
+                             f"{short} can return after the conversion with the found component's namespace still current: what the referring schema "
+                             f"defines after the reference is stamped with the other schema's namespace", fn=short)
+            else:
+                ck.ok(rule, f"out-of-turn:restored:{short}", sp, f"{short}: the namespace that was current before the search is current again on every way back", fn=short)
+    ck.floor(rule, "conversions out of turn judged", n, 1)
 
 
 def rule_fixed_prefixes(ck, F, maker):
